@@ -96,6 +96,12 @@ CHECKS.append(
              "else some listed subdirectory with metadata/, else the path itself. Each accessor is proved to load the first existing candidate (current name before legacy name) into an "
              "instance of the right class, once, and to return the same object afterwards; no candidate or a ValueError from load surfaces as RuntimeError, other errors propagate.",
      "note": _NOTE + "; A4 (os.path.join/exists/listdir); proved for local absolute paths and listings of 0-2 entries (bounded in number); real directory layouts enumerated natively (bounded)"})
+CHECKS.append(
+    {"id": "C11", "technique": "contract-based deductive verification: pyvc VCs/SMT on the real VariantBase.add (validation incl. parent link, duplicate id, refusal leaves the container unchanged) and __getitem__ (lookup by UID from the top / by id from the parent on a depth-3 chain with symbolic ids) + bounded forests for get_variants",
+     "text": "add is executed symbolically for top-level and nested containers: accepted iff the variant satisfies the documented rules with the parent link set (uid = parent uid-id, "
+             "arches within the parent's), its id is unused; then it is registered under its id with the parent link; every refusal raises ValueError/TypeError and leaves variants unchanged. "
+             "Lookup is proved on chains of depth 3 with symbolic ids, on the complement of one known finding (three nested variants sharing one id). get_variants is bounded.",
+     "note": _NOTE + "; bounded in the NUMBER of siblings (0-1) and arches (1) for add; get_variants recursion and cycle detection bounded only; 1 known finding"})
 _PENDING = "check not built yet in this round (planned, DESIGN.md section 8); listed here only so that the manifest stays valid while the framework is being built"
 NOT_APPLICABLE = [{"property_id": "C%02d" % i, "reason": _PENDING} for i in range(1, 21) if "C%02d" % i not in [c["id"] for c in CHECKS]]
 for _e in ENGINES:
